@@ -3,7 +3,13 @@
 //
 // build: -DVH_DISPATCH="\"<generated dispatch file>\"" -I<generated headers>
 // usage: view_main replay <vectors.ndjson>
-#define SBEPP_ENABLE_ASSERTS_WITH_HANDLER
+// -DVH_RELEASE: the unchecked flavour of the library (no assertions, no size
+// checks, views carry no end pointer) - legal calls must behave the same
+#ifdef VH_RELEASE
+#    define SBEPP_DISABLE_ASSERTS
+#else
+#    define SBEPP_ENABLE_ASSERTS_WITH_HANDLER
+#endif
 #include "view_harness.hpp"
 
 namespace vh
